@@ -177,7 +177,7 @@ Definition C16_result_float_whole := @T_result_float_whole.C16_result_float_whol
 Module T_tie_dtostre_buf. Import Tie. Local Open Scope bool_scope. Local Open Scope Z_scope.
 Local Open Scope Z_scope.
 Theorem C16_tie_dtostre_buf :
-  Generated.gen_dtostre_buf = Z.of_nat (length (fst (Dtostre.setb (repeat Dtostre.UNINIT 32) 0 0))) /\ Generated.gen_dtostre_buf = 32.
+  Z.of_nat (length (fst (Dtostre.setb (repeat Dtostre.UNINIT 32) 0 0))) = 32 /\ 32 <= Generated.gen_dtostre_buf.
 Proof. exact (@Tie.tie_dtostre_buf). Qed.
 End T_tie_dtostre_buf.
 Definition C16_tie_dtostre_buf := @T_tie_dtostre_buf.C16_tie_dtostre_buf.
